@@ -179,6 +179,8 @@ def big_frame_records(seed):
         else:
             text, blob = "small%d" % i, bytes([i])
         out.append(D(idx=i, text=text, blob=blob))
+    # one frame beyond 2**24 bytes (the length prefix has four bytes: nothing special may happen at three)
+    out.insert(2, D(idx=99, text="sixteen", blob=bytes(range(256)) * (2**16) + b"tail"))
     return out
 
 
